@@ -317,6 +317,9 @@ def compare_view(sim, who, lib_client, model, scopes, stack, devname, truth, vio
                 if _norm(me.value) != exp:
                     viol.append({"clause": "C01.value", "detail": f"{ctx}: {vname}.{en} mirror {me.value!r} expected {exp!r} (driver value {te['value']!r})", "facts": dict(facts, kind=tv["kind"])})
                     return
+                if tv["kind"] == "Number" and V.denotes(_norm(me.value), te["value"], te["spec"]["format"]) is False:
+                    viol.append({"clause": "C01.value", "detail": f"{ctx}: {vname}.{en} (format {te['spec']['format']}) shows {me.value!r}, which does not denote the driver's value {te['value']!r}", "facts": dict(facts, kind="Number", numeric=True)})
+                    return
             if _norm(me.label) != _norm(te["spec"]["label"] or te["spec"]["name"]):
                 viol.append({"clause": "C01.meta", "detail": f"{ctx}: {vname}.{en} label {me.label!r} expected {te['spec']['label'] or te['spec']['name']!r}", "facts": facts})
                 return
